@@ -42,7 +42,7 @@ TOKEN = re.compile(
     r"""\s*(?:
       (?P<fnum>(?:\d+\.\d*|\.\d+)(?:[eE][+-]?\d+)?[fFlL]?|\d+[eE][+-]?\d+[fFlL]?)
     | (?P<num>0[xX][0-9a-fA-F]+|\d+)(?P<suf>[uUlL]*)(?![\w.])
-    | (?P<id>[A-Za-z_]\w*)
+    | (?P<id>[RCPVQMGS][0-3]{1,2}:[0-3]{1,2}(?:_NEW)?(?!\w)|[A-Za-z_]\w*)
     | (?P<str>"(?:[^"\\]|\\.)*")
     | (?P<chr>'(?:[^'\\]|\\.)+')
     | (?P<p>%s)
